@@ -74,7 +74,9 @@ def stmt_muts(st: ast.AST, aliases: Dict[str, Tuple[str, str]]) -> List[Mut]:
     elif isinstance(st, ast.AugAssign):
         r = table_ref(st.target, aliases) or (table_ref(st.target.value, aliases) if isinstance(st.target, ast.Subscript) else None)
         if r is not None:
-            out.append(Mut("other:augassign", r[1], r[0], None, norm(st.value), st))
+            # `table += seq` on a list is an in-place extend
+            whole = not isinstance(st.target, ast.Subscript) and isinstance(st.op, ast.Add)
+            out.append(Mut("extend" if whole else "other:augassign", r[1], r[0], None, norm(st.value), st))
     elif isinstance(st, ast.Delete):
         for t in st.targets:
             if isinstance(t, ast.Subscript):
